@@ -76,10 +76,14 @@ def expected_bytes(line, maxlen):
     return outs, b, valid
 
 
-def check_passthrough(line, out, maxlen):
+def check_passthrough(line, out, maxlen, after_section=False):
     outs, b, valid = expected_bytes(line, maxlen)
     if out in outs:
         return
+    if after_section and out.endswith(b"\n") and out.count(b"\n") > 1:
+        # the step that ends a file section first writes what was still held back (the last changed lines, a
+        # pending file header): complete rows, then the foreign line - judged on its own
+        return check_passthrough(line, out[out[:-1].rfind(b"\n") + 1:], maxlen)
     if maxlen > 0 and len(line) > maxlen:
         # truncation beyond max-line-length: a prefix of the line's visible text (escape
         # sequences kept), optionally ending in the truncation mark
@@ -104,6 +108,9 @@ class Foreign(Problem):
         self.k = k
         self.alphabet = alphabet
         self.section_kinds = section_kinds
+        # directly after a hunk a line is foreign only if it cannot be a hunk line: it does not start with a blank,
+        # `+`, `-` or `\\` and is not empty
+        self.after_section = [l for l in alphabet if l[:1] not in (b" ", b"+", b"-", b"\\", b"")]
 
     # producer state: (phase, count, idx)
     #   phase 0: foreign lines before anything           -> commit line | section
@@ -143,14 +150,19 @@ class Foreign(Problem):
             lines, _ = producers.section(kind, 0, body)
             if count < len(lines):
                 return [(lines[count], (2, count + 1, idx), "section")]
-            return [(producers.COMMIT_BLOCK[0].replace(b"1", b"3"), (4, 0, 0), "commit")]
+            # after a file section: the next commit line - or foreign text directly (`git log --oneline -p`,
+            # `git log --format=… -p`, `(git diff; some-command) | delta`)
+            return [(producers.COMMIT_BLOCK[0].replace(b"1", b"3"), (4, 0, 0), "commit")] + \
+                [(l, (5, 1, 0), "foreign") for l in self.after_section]
         if phase == 4:
             return self._foreign(4, count) if count < min(self.k, 2) else []
+        if phase == 5:
+            return [(l, (5, count + 1, 0), "foreign") for l in self.after_section] if count < 2 else []
         return []
 
     def step(self, model, line, kind, out, ps):
         if kind == "foreign":
-            check_passthrough(line, out, self.ocfg.get("maxlen", 3000))
+            check_passthrough(line, out, self.ocfg.get("maxlen", 3000), after_section=(ps[0] == 5 and ps[1] == 1))
         return ()
 
     def model_key(self, model):
@@ -213,10 +225,10 @@ def run_task(task):
 
 ASSUMPTIONS = [
     "alphabet of %d foreign lines (props/c04.py) that do not begin with a construct-opening marker; "
-    "placed before the first diff, after a commit line, and after a file section + commit line"
+    "placed before the first diff, after a commit line, directly after a file section, and after a file section + commit line"
     % len(FOREIGN),
-    "not demanded: pass-through of text that follows a hunk without an intervening commit/diff line "
-    "(delta documents that it keeps treating lines as hunk content); diffstat-shaped lines "
+    "text directly after a file section (no commit line in between): only lines that cannot be hunk lines (not "
+    "starting with a blank, `+`, `-`, `\\`; not empty); not demanded: diffstat-shaped lines "
     "(` path | N +-`) under --relative-paths (an explicit request to rewrite them; none in the alphabet); "
     "hyperlinks on raw lines (need a terminal)",
     "grep/blame callers only with lines outside the documented grep/blame shapes",
